@@ -92,6 +92,12 @@ func semanticTokensForTraversal(traversal hcl.Traversal) []lang.SemanticToken {
 				},
 			}
 
+			if idxRange.Start.Byte >= idxRange.End.Byte {
+				// nothing is written between the brackets (e.g. an index
+				// left open at the end of the file): there is nothing to mark
+				continue
+			}
+
 			if ts.Key.Type() == cty.String {
 				tokens = append(tokens, lang.SemanticToken{
 					Type:      lang.TokenMapKey,
